@@ -378,3 +378,41 @@ prop(
     ],
     floor={"quick": 300, "thorough": 3000},
 )
+
+prop(
+    "C18",
+    title="Reader and writer configuration is isolated per instance",
+    level="exploration",
+    technique="stateful (model-based) property testing with rapid state machines and fake drivers that record the options reaching them",
+    design_ref="DESIGN.md §5 C18",
+    rule=("rapid state machine: newWriter(subset of {format, render, serialize, format options, store options, nil options}), newReader(subset of {unserialize, "
+          "retrieve, format options}), write, writeWithOptions, parse, parseWithOptions on up to 6+6 live instances; fake serializer/unserializer registered under a "
+          "private format (and, for the case's duration, as the CycloneDX 1.5 parser so that auto-detected parses reach it). After every step every live instance's "
+          "Options fields and format-option lookups are compared with a model = documented defaults overlaid with its own constructor options. Non-trivial = history in "
+          "which an optioned constructor precedes an option-less one of the same kind; distinct = digest of the history."),
+    assumptions=["each case starts by undoing, through a throw-away instance, whatever a shared defaults object may hold, so a case is a pure function of its own history",
+                 "when a call's option set carries no render / format options, either the library default or the instance's own may reach the driver"],
+    level_text=("invariant over histories: configuration of every live instance equals the model after every constructor / call; the format and the options that reach "
+                "the driver in a call are those of the call's option set, and the next plain call uses the instance's own again."),
+    level_note="trusts rapid's state-machine driver and the fake drivers in harness/props/c18_test.go",
+    jobs=[{"test": "TestC18", "checks": 1500, "timeout": 300, "thorough": {"checks": 30000, "shards": 16, "timeout": 1500}}],
+    floor={"quick": 200, "thorough": 5000},
+)
+
+prop(
+    "C17",
+    title="Registries, detection, parsing and writing are safe under concurrency",
+    level="exploration",
+    technique="generated concurrent programs under the Go race detector, per-call comparison with sequential results, porcupine linearizability check of registry histories (rapid)",
+    design_ref="DESIGN.md §5 C17",
+    rule=("rapid draws programs of 2-8 goroutines x 3-12 calls from {reader.New, writer.New (with options), Register/Unregister/GetFormat(Un)serializer on 3 private + "
+          "2 built-in keys, SniffReader on JSON and tag-value inputs, ParseStream, WriteStream on goroutine-local documents}, started together from a barrier in a -race "
+          "binary (halt on first report). Non-trivial = two goroutines touch the same registry key or both sniff tag-value input; distinct = digest of the program."),
+    assumptions=["interleavings are sampled by the Go scheduler, not enumerated; the race detector's verdict depends on the happens-before relation of the executed accesses, not on timing",
+                 "atomicity violations without a data race are found only if the sampled schedule exhibits them (linearizability is checked on the observed histories)"],
+    level_text=("no race report, no runtime abort; every parse / write / detection result equals the sequential result computed beforehand; constructors return instances "
+                "configured with their own options; the registry call/return histories are linearizable w.r.t. a map model (porcupine)."),
+    level_note="trusts the Go race detector, porcupine v1.3.0 and rapid",
+    jobs=[{"test": "TestC17", "checks": 350, "race": True, "timeout": 400, "thorough": {"checks": 3000, "shards": 8, "timeout": 1700}}],
+    floor={"quick": 100, "thorough": 3000},
+)
